@@ -37,8 +37,105 @@ def rel_spelling(rng, from_dir: str, to_path: str) -> str:
     return rel
 
 
+def generate_twins(seed: int, tier: str) -> dict:
+    """Two directories with byte-identical intermediate files whose relative imports differ in target."""
+    st = Streams(seed)
+    rng = st("twins")
+    tag = (seed % 9000 + 1000) * 100
+    dirs = rng.sample(["p", "q", "r", "p/s"], rng.randint(2, 3))
+    mid = rng.choice(["default.nix", "pkg.nix"])
+    leaf = rng.choice(["leaf.nix", "x.nix"])
+    vals = {d: tag + i + 1 for i, d in enumerate(dirs)}
+    missing = rng.choice(dirs) if rng.random() < 0.25 else None
+    order = list(dirs)
+    rng.shuffle(order)
+    if rng.random() < 0.4:
+        order.append(rng.choice(dirs))  # look one of them up again
+    events = []
+    for call in range(len(order) * 3 + 1):
+        if rng.random() < 0.3:
+            events.append({"before_call": call, "chdir": rng.choice(["", "/"] + dirs)})
+    return {"prop": "C17", "engine": "fs", "seed": seed, "tier": tier, "twins": {"dirs": dirs, "mid": mid, "leaf": leaf, "vals": vals, "missing": missing, "order": order},
+            "events": events, "start_cwd": rng.choice(["", "/"]), "entry_form": rng.choice(["rel", "abs", "rel_dot"])}
+
+
+def execute_twins(case: dict):
+    from nix_manipulator import parse_file
+
+    tw = case["twins"]
+    viols: list[Violation] = []
+    stats: dict = {"layouts": 1, "twin_layouts": 1, "hops": 2 * len(tw["order"])}
+    root = clisim.scratch_root()
+    old_cwd = os.getcwd()
+    facts = {"fault": "missing" if tw["missing"] else None, "entry_form": case["entry_form"], "twins": True, "hops": 2, "events": ["chdir"] if case["events"] else []}
+    try:
+        for d in tw["dirs"]:
+            os.makedirs(os.path.join(root, d), exist_ok=True)
+            with open(os.path.join(root, d, tw["mid"]), "w") as fh:
+                fh.write("{\n  nxt = import ./%s;\n}\n" % tw["leaf"])  # byte-identical in every directory
+            if d != tw["missing"]:
+                with open(os.path.join(root, d, tw["leaf"]), "w") as fh:
+                    fh.write("{ val = %d; }\n" % tw["vals"][d])
+        with open(os.path.join(root, "entry.nix"), "w") as fh:
+            fh.write("{\n" + "".join("  k%d = import ./%s/%s;\n" % (i, d, tw["mid"]) for i, d in enumerate(tw["dirs"])) + "}\n")
+
+        def run_events(idx):
+            for e in case["events"]:
+                if e["before_call"] == idx:
+                    os.chdir(e["chdir"] if e["chdir"] == "/" else os.path.join(root, e["chdir"]))
+                    stats["event:chdir"] = stats.get("event:chdir", 0) + 1
+
+        os.chdir("/" if case["start_cwd"] == "/" else os.path.join(root, case["start_cwd"]))
+        run_events(0)
+        cwd_now = os.getcwd()
+        c2 = dict(case, chain=["entry.nix"])
+        spelled = entry_spelling(c2, root, cwd_now)
+        src = parse_file(spelled)
+        call = 1
+        for d in tw["order"]:
+            key = "k%d" % tw["dirs"].index(d)
+            try:
+                run_events(call)
+                cur = src[key]
+                run_events(call + 1)
+                cur = cur["nxt"]
+                run_events(call + 2)
+                got = cur["val"]
+                value = got.rebuild() if hasattr(got, "rebuild") else repr(got)
+                outcome = "value"
+            except Exception as e:  # noqa: BLE001
+                outcome = type(e)
+                value = str(e).replace(root, "@ROOT@")
+            call += 3
+            if d == tw["missing"]:
+                stats["fault:missing"] = stats.get("fault:missing", 0) + 1
+                if outcome == "value":
+                    viols.append(Violation("C17.fault_resolved_elsewhere", "%s/%s is missing but the lookup through %s/%s answered %s" % (d, tw["leaf"], d, tw["mid"], value), None, facts))
+                    break
+                if not issubclass(outcome, OSError):
+                    viols.append(Violation("C17.wrong_error", "missing %s/%s: raised %s (%s), expected an OS error" % (d, tw["leaf"], outcome.__name__, value), None, facts))
+                    break
+            else:
+                if outcome != "value":
+                    viols.append(Violation("C17.lookup_failed", "lookup through %s/%s failed with %s: %s" % (d, tw["mid"], outcome.__name__, value), None, facts))
+                    break
+                if value != str(tw["vals"][d]):
+                    other = [x for x, v in tw["vals"].items() if str(v) == value]
+                    viols.append(Violation("C17.wrong_file", "lookup through %s/%s answered %s (the value under %r), expected %d" % (d, tw["mid"], value, other, tw["vals"][d]), None, facts))
+                    break
+    finally:
+        try:
+            os.chdir(old_cwd)
+        except OSError:
+            os.chdir("/")
+        shutil.rmtree(root, ignore_errors=True)
+    return viols, stats, [digest([tw, case["events"], case["start_cwd"], case["entry_form"]])]
+
+
 def generate(seed: int, tier: str) -> dict:
     st = Streams(seed)
+    if st("kind").random() < 0.25:
+        return generate_twins(seed, tier)
     rng = st("layout")
     ndirs = rng.randint(1, 4)
     dirs = [""] + rng.sample(DIRS[1:], ndirs - 1) if ndirs > 1 else [""]
@@ -153,6 +250,8 @@ def entry_spelling(case: dict, root: str, cwd_abs: str) -> str:
 def execute(case: dict):
     from nix_manipulator import parse_file
 
+    if case.get("twins"):
+        return execute_twins(case)
     viols: list[Violation] = []
     stats: dict = {"layouts": 1, "hops": len(case["chain"]) - 1}
     keys = [digest([case["files"], case["chain"], case["events"], case["start_cwd"], case["entry_form"], case["fault"]])]
@@ -272,6 +371,12 @@ class FsProperty:
 
     def shrink_candidates(self, case):
         ev = case["events"]
+        if case.get("twins"):
+            for i in range(len(ev)):
+                c = dict(case)
+                c["events"] = ev[:i] + ev[i + 1:]
+                yield c
+            return
         for i in range(len(ev)):
             c = dict(case)
             c["events"] = ev[:i] + ev[i + 1:]
